@@ -27,7 +27,8 @@ class BaseSolver(object):
             f.write(out)
 
     def CreateCsvString(self):
-        varlist = self.VariableList
+        # Work on a copy: the variable list of the object must not be reordered by rendering it.
+        varlist = list(self.VariableList)
         if 't' in varlist:
             varlist.remove('t')
             varlist = ['t', ] + varlist
